@@ -9,6 +9,8 @@ import (
 	"bytes"
 	"fmt"
 	"mime"
+	"sync"
+	"time"
 	"os"
 	"os/exec"
 	"strconv"
@@ -111,6 +113,13 @@ func cmdC14Child(args []string) {
 	out := bufio.NewWriter(os.Stdout)
 	defer out.Flush()
 	// results taken before any extension, to be re-read at the end
+	// every name and alias that is going to be registered is looked up BEFORE (a miss now must not be remembered)
+	for _, os_ := range ops {
+		o := decOp(os_)
+		for _, name := range append([]string{o.mime}, o.aliases...) {
+			_ = mimetype.Lookup(name)
+		}
+	}
 	pre := mimetype.Detect([]byte("{\"a\":1}"))
 	preStr := chainFull(pre) + "#" + fmt.Sprint(pre.Is("application/json"))
 	for i, os_ := range ops {
@@ -154,6 +163,22 @@ func cmdC14Child(args []string) {
 				chain = chainOf(m)
 			}
 			fmt.Fprintf(out, "extp\t%s\t%s\t%d\t%s\t%s\n", args[0], hx(hdr), l, sb.String(), chain)
+			if pan == nil && m != nil {
+				// the reader entry point walks the same enlarged tree; results stay well-formed (C02)
+				mimetype.SetLimit(l)
+				if r, err := mimetype.DetectReader(bytes.NewReader(x)); err != nil || r == nil || chainOf(r) != chain {
+					got := "NIL"
+					if r != nil {
+						got = chainOf(r)
+					}
+					fmt.Fprintf(out, "!propfail\tC14\tafter the Extend calls DetectReader and Detect disagree: Detect=%s DetectReader=%s err=%v input=%s limit=%d history=%s\n", chain, got, err, hx(x), l, args[0])
+				}
+				for p := m; p != nil; p = p.Parent() {
+					if p != m && strings.Contains(p.String(), ";") {
+						fmt.Fprintf(out, "!propfail\tC02\tan ancestor in the Parent() chain carries a parameter after Extend calls: %q in chain of %q; input=%s history=%s\n", p.String(), m.String(), hx(x), args[0])
+					}
+				}
+			}
 		}
 	}
 	// Lookup of every extension name and alias
@@ -179,6 +204,42 @@ func cmdC14Child(args []string) {
 	post := chainFull(pre) + "#" + fmt.Sprint(pre.Is("application/json"))
 	if post != preStr {
 		fmt.Fprintf(out, "!propfail\tC14\ta result returned before the Extend calls changed afterwards: before=%s after=%s history=%s\n", preStr, post, args[0])
+	}
+	// overlapping Extend calls on one parent while a detection holds the read lock: none may be lost
+	{
+		gate := make(chan struct{})
+		entered := make(chan struct{}, 1)
+		mimetype.Extend(func(raw []byte, _ uint32) bool {
+			if bytes.HasPrefix(raw, []byte("VERIF-BLOCK")) {
+				select {
+				case entered <- struct{}{}:
+				default:
+				}
+				<-gate
+			}
+			return false
+		}, "application/x-verif-block", ".blk")
+		done := make(chan struct{})
+		go func() { mimetype.Detect([]byte("VERIF-BLOCK")); close(done) }()
+		<-entered
+		var wg sync.WaitGroup
+		names := []string{"application/x-verif-par-0", "application/x-verif-par-1", "application/x-verif-par-2", "application/x-verif-par-3"}
+		for _, n := range names {
+			wg.Add(1)
+			go func(n string) {
+				defer wg.Done()
+				mimetype.Lookup("application/pdf").Extend(func([]byte, uint32) bool { return false }, n, ".par")
+			}(n)
+		}
+		time.Sleep(150 * time.Millisecond)
+		close(gate)
+		wg.Wait()
+		<-done
+		for _, n := range names {
+			if l := mimetype.Lookup(n); l == nil || l.Parent() == nil || l.Parent().String() != "application/pdf" {
+				fmt.Fprintf(out, "!propfail\tC14\tan Extend call that overlapped other Extend calls on the same parent was lost: Lookup(%q) = %v; history=%s\n", n, l, args[0])
+			}
+		}
 	}
 	fmt.Fprintf(out, "extdone\t%s\n", args[0])
 }
@@ -312,6 +373,9 @@ func runC14(c *runCtx) {
 					before = chainOf(m)
 				}
 				line += "\t" + before
+			}
+			if c.prop == "C03" && strings.HasPrefix(line, "!propfail\tC14\tafter the Extend calls DetectReader and Detect disagree") {
+				line = strings.Replace(line, "!propfail\tC14\t", "!propfail\tC03\t", 1) // one walk for every entry point
 			}
 			c.out.WriteString(line + "\n")
 		}
